@@ -62,6 +62,13 @@ def _model_filter(f, k):
     raise ValueError(f)
 
 
+def _hash_or_none(v):
+    try:
+        return canon.job_id(canon.plain(v))
+    except Exception:
+        return None
+
+
 def read_cache_file(d):
     fn = os.path.join(d, CACHE)
     if not os.path.exists(fn):
@@ -238,6 +245,9 @@ def execute(hist):
             "file": None if content is None else sorted(idx_of.get(n, n) for n in content),
             "mem": sorted(idx_of.get(n, n) for n in session._sp_cache),
             "read": session._sp_cache_read,
+            # entries whose value does not hash to their key (impossible as long as the cache is content-addressed)
+            "mem_inconsistent": sorted(idx_of.get(n, n) for n, v in session._sp_cache.items() if _hash_or_none(v) != n),
+            "file_inconsistent": sorted(idx_of.get(n, n) for n, v in (content or {}).items() if _hash_or_none(v) != n),
         }, sort_keys=True, default=str)
     return {"key": key, "enabled": [list(o) for o in ops()], "viol": viol, "n": ncalls,
             "cls": hist[-1][0] if hist else "init", "expected_failure": expected_failure}
